@@ -4,7 +4,7 @@
     The controller's half is in the Ctl model.  Only statements here. *)
 From Coq Require Import List Arith Bool NArith.
 From Jiva Require Import Block.Model Block.Corr Block.Lemmas Block.ProofsWrite Block.ProofsUnit Block.ProofsRead
-     Block.ProofsOps Block.ProofsPreload Block.Refine Block.Proofs.
+     Block.ProofsOps Block.ProofsPreload Block.Refine Block.Proofs Block.OracleProofs.
 Import ListNotations.
 
 (** every chain prefix (live volume and every snapshot) reads as before followed by zeros *)
@@ -37,6 +37,14 @@ Theorem C16_in_histories : forall K nb p rv (h : list (op * list bool)), 0 < K -
   c01_oracle (mkcfg K nb p rv) (map fst h) (trace true K rv (init nb p) h) = true.
 Proof. intros K nb p rv h HK. exact (proj1 (block_refines_spec K nb p rv h HK)). Qed.
 
+(** The executable statement of C16 on observed traces holds on every trace of the model whose
+    operations stay inside the specification's domain. *)
+Theorem C16_oracle_holds_on_model : forall K nb p rv (h : list (op * list bool)), 0 < K ->
+  in_dom K (spec0 (mkcfg K nb p rv)) (map fst h) (trace true K rv (init nb p) h) = true ->
+  c16_oracle (mkcfg K nb p rv) (map fst h) (trace true K rv (init nb p) h) = true.
+Proof. exact c16_oracle_model. Qed.
+
+Print Assumptions C16_oracle_holds_on_model.
 Print Assumptions C16_grow.
 Print Assumptions C16_added_range_accepts_writes.
 Print Assumptions C16_shrink_refused.
